@@ -74,6 +74,16 @@ def make_case(rng, idx):
             if "Hash" not in derived:
                 elems.append("Hash")
                 derived = derived + ["Hash"]
+    # dump (shared, or on one trait) turns impls into an error message; the item is re-emitted as always
+    dumped = False
+    if not erring and rng.random() < 0.12:
+        dumped = True
+        bare = [i for i, e in enumerate(elems) if "(" not in e]
+        if bare and rng.random() < 0.5:
+            i = rng.choice(bare)
+            elems[i] = elems[i] + "(dump)"
+        else:
+            shared.append("dump")
     attr = ", ".join(elems + shared)
     text = G.render(item)
     if G.dontcare_helper(G.all_attrs(item), derived):
@@ -83,7 +93,7 @@ def make_case(rng, idx):
     else:
         req = {"id": idx, "entry": "attr", "attr": attr, "item": text,
                "expect_item": G.render(item, G.keep_for_derived(derived))}
-    return req, {"kind": item["kind"], "derived": derived, "erring": erring, "late": late}
+    return req, {"kind": item["kind"], "derived": derived, "erring": erring, "late": late, "dumped": dumped}
 
 
 def judge(o, meta):
@@ -147,6 +157,8 @@ def run(rep, tier, rng):
             continue
         errs = [it for it in o.get("items", []) if it["kind"] == "compile_error"]
         rep.count("expansions_with_error" if errs else "expansions_clean")
+        if meta.get("dumped"):
+            rep.count("expansions_with_dump")
         if meta["erring"] and not errs:
             rep.count("error_provocation_accepted")
         ex = o["expect_cmp"]
@@ -183,7 +195,7 @@ def run(rep, tier, rng):
     rep.rule = ("random struct/enum/impl items with interleaved foreign attributes (doc comments, repr, cfg_attr, allow, "
                 "serde-like, path and name=value attributes), all visibility forms, generics/where-clauses, discriminants, "
                 "helper attributes of derived and of not-derived traits on type/variant/field; ~30% with a provoked "
-                "derivation error. Oracle: first emitted item == input minus derive_ex attributes minus helper attributes "
+                "derivation error, ~8% with `dump` (shared or on one trait). Oracle: first emitted item == input minus derive_ex attributes minus helper attributes "
                 "that the doc table assigns to a derived trait (token equality through one lexer) - also when the derivation "
                 "fails after the argument list was accepted; when the argument list itself is rejected the "
                 "item must survive modulo helper-named attributes. distinct_nontrivial = distinct (item kind, set of "
